@@ -38,12 +38,18 @@ def gen(tier, rng):
             o = info[s]
             out.append(("URLT %s %s %s" % (ty, C.tb(s), "-" if o is None else o[0]), "valid" if o else "invalid"))
     valid = [s for s in strings if info[s] is not None and len(s) < 400][:60]
+    # long values that differ only near the end (a hash or comparison over a prefix would not see the difference)
+    longs = ["https://example.com/" + "x" * n + t for n in (240, 300, 1100, 5000) for t in ("a", "b")]
     for ti, ty in enumerate(TYPES):
         for i, a in enumerate(valid):
             for j, b in enumerate(valid):
                 # all pairs of different spellings of the same parsed URL are always included
                 if (i * 31 + j * 7 + ti) % (5 if tier == "quick" else 1) == 0 or a == b or info[a][0] == info[b][0]:
                     out.append(("URLP %s %s %s" % (ty, C.tb(a), C.tb(b)), "pair"))
+    for ti, ty in enumerate(TYPES):
+        for i in range(0, len(longs), 2):
+            for (a, b) in ((longs[i], longs[i + 1]), (longs[i + 1], longs[i]), (longs[i], longs[i])):
+                out.append(("URLP %s %s %s" % (ty, C.tb(a), C.tb(b)), "long-pair"))
     return out
 
 
